@@ -467,7 +467,7 @@ fn literal_octal_int(input: &[u8]) -> LexResult<'_, Token> {
 
 /// Parse an integer literal
 fn literal_int(input: &[u8]) -> LexResult<'_, Token> {
-    if input.starts_with(b"0x") {
+    if input.starts_with(b"0x") || input.starts_with(b"0X") {
         literal_hex_int(&input[2..])
     } else if input.starts_with(b"0") && (digit_octal(&input[1..]).is_ok()) {
         literal_octal_int(&input[1..])
